@@ -206,3 +206,36 @@ def compare_sets(got, truth):
     missing = sorted(i for i, v in truth.items() if v is True and i not in got)
     extra = sorted(i for i in got if truth.get(i, False) is False)
     return missing, extra
+
+
+# --------------------------------------------------------------------- open known finding: circle export
+_CIRCLE_SCALE = None
+
+
+def circle_export_scale():
+    """Which disc does the library export for Circle(r)?  1.0 = radius r (correct), 0.5 = radius r / 2 (the open
+    known finding 'Circle.shapely_object buffers by radius / 2').  Measured once per process on a probe circle."""
+    global _CIRCLE_SCALE
+    if _CIRCLE_SCALE is None:
+        from commonroad.geometry.shape import Circle
+
+        a = float(Circle(2.0, np.array([0.0, 0.0])).shapely_object.area)
+        r_eff = math.sqrt(a / math.pi) / 2.0
+        _CIRCLE_SCALE = 0.5 if r_eff < 0.75 else 1.0
+    return _CIRCLE_SCALE
+
+
+def exported(raw, scale=None):
+    """The raw record of the region the library's exported geometry denotes (circles scaled by `scale`)."""
+    scale = circle_export_scale() if scale is None else scale
+    if scale == 1.0:
+        return raw
+    if raw["t"] == "circ":
+        return dict(raw, r=raw["r"] * scale)
+    if raw["t"] == "group":
+        return dict(raw, shapes=[exported(s, scale) for s in raw["shapes"]])
+    return raw
+
+
+def has_circle(raw):
+    return raw["t"] == "circ" or (raw["t"] == "group" and any(has_circle(s) for s in raw["shapes"]))
